@@ -59,7 +59,10 @@ class SimSimpleQueue:
                 raise _queue.Empty()
         if not self.items:
             raise _queue.Empty()
-        return self.items.pop(0)
+        item = self.items.pop(0)
+        if a is not None and a.in_sim() and block:
+            a.maybe_stall()
+        return item
 
     def get_nowait(self):
         return self.get(block=False)
@@ -83,7 +86,14 @@ class Ambient:
                              params={'starve_target': 't', 'est_steps': 60})
         self.nthreads = 0
         self.fs_yields = 0
+        self.stalls = 0
         self.installed = False
+        # "slow node" faults: a task may stall (virtual time) at a file operation, so that timeouts other tasks have
+        # on it can expire - virtual time only advances when nothing is runnable, a merely descheduled task never is late
+        srng = sub.rng('ambient-stall')
+        self.srng = srng
+        self.stall_p = srng.choice([0.0, 0.0, 0.1, 0.3])
+        self.stall_d = srng.choice([0.005, 0.1, 2.0, 30.0])
 
     # -- which real thread is asking?
     def in_sim(self):
@@ -98,10 +108,23 @@ class Ambient:
     def multi(self):
         return self.nthreads > 0 and any(not t.done for t in self.sched.tasks[1:])
 
+    def maybe_stall(self):
+        """after a task other than main got what it waited for: it may be slow to act on it"""
+        cur = self.sched.current
+        if self.stall_p and cur is not None and cur.name != 'main' and self.sched.failed is None and self.srng.random() < self.stall_p:
+            self.stalls += 1
+            self.sub.fault('stall')
+            self.sched.sleep(self.stall_d)
+
     def on_fs_op(self):
         if self.multi() and self.in_sim() and self.sched.failed is None:
             self.fs_yields += 1
-            self.sched.yield_point('fs-op')
+            if self.stall_p and self.srng.random() < self.stall_p:
+                self.stalls += 1
+                self.sub.fault('stall')
+                self.sched.sleep(self.stall_d)
+            else:
+                self.sched.yield_point('fs-op')
 
     # -- patches
     def install(self):
@@ -145,7 +168,9 @@ class Ambient:
             if a.in_sim() and block and a.multi():
                 if not a.sched.block(lambda: q._qsize() > 0, timeout, 'queue.get'):
                     raise _queue.Empty()
-                return _REAL['q_get'](q, False)
+                item = _REAL['q_get'](q, False)
+                a.maybe_stall()
+                return item
             return _REAL['q_get'](q, block, timeout)
 
         def q_put(q, item, block=True, timeout=None):
@@ -247,7 +272,7 @@ class Ambient:
             if self.nthreads:
                 self.sub.count('ambient_switches', st['switches'])
                 self.sub.count('ambient_fs_yields', self.fs_yields)
-                self.sub.log('ambient', 'summary', self.strategy, self.nthreads, st['switches'], self.fs_yields, self.sched.leaked())
+                self.sub.log('ambient', 'summary', self.strategy, self.nthreads, st['switches'], self.fs_yields, self.stalls, self.sched.leaked())
                 import os
                 if os.environ.get('DFSIM_AMBIENT_TRACE'):
                     self.sub.log('ambient', 'trace', ' '.join(self.sched.sched_digest_items))
